@@ -33,12 +33,18 @@ def main():
         try:
             subprocess.check_call(['rsync', '-a', '--exclude', '*.so', '--exclude', '*.c', '--exclude', '__pycache__',
                                    '/repo/falcon', tmp + '/'])
-            path = os.path.join(tmp, m['file'])
-            src = open(path).read()
-            if src.count(m['old']) != 1:
-                print('%-40s %s  STALE (old text found %d times)' % (m['name'], m['property'], src.count(m['old'])))
+            edits = m.get('edits') or [{'file': m['file'], 'old': m['old'], 'new': m['new']}]
+            stale = False
+            for e in edits:
+                path = os.path.join(tmp, e['file'])
+                src = open(path).read()
+                if src.count(e['old']) != 1:
+                    print('%-40s %s  STALE (old text found %d times in %s)' % (m['name'], m['property'], src.count(e['old']), e['file']))
+                    stale = True
+                    break
+                open(path, 'w').write(src.replace(e['old'], e['new']))
+            if stale:
                 continue
-            open(path, 'w').write(src.replace(m['old'], m['new']))
             env = dict(os.environ, FALCON_REPO=tmp, MC_WORKERS=a.workers, MC_EVIDENCE_DIR=os.path.join(tmp, 'ev'))
             props = m['property'] if isinstance(m['property'], list) else [m['property']]
             for pid in props:
